@@ -231,7 +231,28 @@ fn index_alphabet() -> Vec<V> {
     v.push(V::U128(u128::MAX));
     v.extend(other_encodings());
     v.push(V::U128(1u128 << 127));
+    // just beyond the signed 64-bit range on the negative side (reached as `-m` with m a u64)
+    v.push(V::I128(-(1i128 << 63) - 1));
+    v.push(V::I128(-(u64::MAX as i128)));
     v
+}
+
+/// m such that `-m` is the index: held unsigned (u64 when it fits) for a non-positive index, signed
+/// for a positive one. (Seeded change C14-13 negated a u64 through a wrapping cast to i64.)
+fn negation_operand(i: &V) -> Option<V> {
+    let x = i.as_i128()?;
+    let m = x.checked_neg()?;
+    Some(if m >= 0 {
+        match u64::try_from(m) {
+            Ok(u) => V::U64(u),
+            Err(_) => V::U128(m as u128),
+        }
+    } else {
+        match i64::try_from(m) {
+            Ok(s) => V::I64(s),
+            Err(_) => V::I128(m),
+        }
+    })
 }
 
 fn other_encodings() -> Vec<V> {
@@ -629,10 +650,15 @@ fn main() {
             for (iv, res) in indices.iter().zip(answer.split(';')) {
                 // None = undefined
                 let want: Option<String> = if res == "U" { None } else { Some(seq.show_one(parse_elems(res)[0])) };
-                let ctx = vals::context(&[("x", &seq.v), ("i", iv)]);
+                let neg = negation_operand(iv);
+                let ctx = vals::context(&[("x", &seq.v), ("i", iv), ("m", neg.as_ref().unwrap_or(&V::Undef))]);
                 let mut spell: Vec<(String, &'static str)> = vec![("i".into(), "ctx")];
                 if let Some(l) = P::Val(iv.clone()).literal() {
                     spell.push((l, "lit"));
+                }
+                if neg.is_some() {
+                    // the minus written in the template, its operand from the context
+                    spell.push(("-m".into(), "negated-ctx"));
                 }
                 for (isrc, spelling) in spell {
                     for br in BRACKETS {
